@@ -1,4 +1,478 @@
+//! world replay  --in <TLC output> --out <ndjson> [--variants k] [--keep n] [--seed s]
+//!     spec -> impl: every history emitted by MCWorld (`<<"REPLAY", json>>` lines) is
+//!     executed on a real `shred::World`; outcome and projected state are compared
+//!     with the model's after EVERY call.  Disagreeing histories (up to the first
+//!     disagreement) and a sample of agreeing ones are written as event traces for
+//!     WorldTrace.tla, which produces the verdict.
+//! world random  --out <ndjson> --blocks n --len m --seed s
+//!     impl -> spec: long random single-thread histories (4 types x 3 dynamic ids).
+//! world threads --out <ndjson> --blocks n --rounds r --ops m --seed s
+//!     impl -> spec: 2..8 threads on a shared &World, call/ret logged under one mutex,
+//!     canaries, quiescent probes between rounds; validated for linearizability.
+use std::{
+    fs::File,
+    io::{BufRead, BufReader, BufWriter, Write},
+    sync::{
+        atomic::{AtomicU32, Ordering},
+        Mutex,
+    },
+};
+
+use rand::{rngs::StdRng, seq::SliceRandom, Rng, SeedableRng};
+use serde::Deserialize;
+use serde_json::{json, Value};
+use shredh::{
+    worldx::{panic_why, AnyGuard, CallSpec, Driver, GEntry, SendEntry, ShapeM, NCONC},
+    Args,
+};
+
 fn main() {
-    eprintln!("stub");
-    std::process::exit(2);
+    shredh::quiet_panics();
+    let a = Args::from_env();
+    match a.cmd() {
+        "replay" => replay(&a),
+        "random" => random(&a),
+        "threads" => threads(&a),
+        _ => {
+            eprintln!("usage: world replay|random|threads ...");
+            std::process::exit(2)
+        }
+    }
+}
+
+fn write_block<W: Write>(w: &mut W, evs: &[Value]) {
+    for e in evs {
+        serde_json::to_writer(&mut *w, e).unwrap();
+        w.write_all(b"\n").unwrap();
+    }
+}
+
+/// injective map abstract types -> concrete types, dynamic ids -> real dynamic ids
+fn variant(rng: &mut StdRng, nt: usize, nd: usize, identity: bool) -> (Vec<usize>, Vec<u64>) {
+    let mut tys: Vec<usize> = (0..NCONC).collect();
+    if !identity {
+        tys.shuffle(rng);
+    }
+    tys.truncate(nt);
+    let mut dyns: Vec<u64> = vec![0];
+    while dyns.len() < nd {
+        let d: u64 = if identity {
+            dyns.len() as u64
+        } else {
+            *[1u64, 2, 7, 1 << 32, u64::MAX, u64::MAX - 1].choose(rng).unwrap()
+        };
+        if !dyns.contains(&d) {
+            dyns.push(d);
+        }
+    }
+    (tys, dyns)
+}
+
+// ------------------------------------------------------------------ replay
+
+#[derive(Deserialize)]
+struct Step {
+    call: CallSpec,
+    out: Value,
+    cells: Value,
+    guards: Value,
+    drops: Value,
+}
+
+fn replay(a: &Args) {
+    let inp = a.get("in").expect("--in");
+    let out = a.get("out").expect("--out");
+    let seed: u64 = a.num("seed", 1);
+    let variants: usize = a.num("variants", 1);
+    let keep: usize = a.num("keep", 200);
+    let max_bad: usize = a.num("max-bad", 200);
+    let nt: usize = a.num("ntypes", 2);
+    let nd: usize = a.num("ndyns", 2);
+    let mut rng = StdRng::seed_from_u64(seed);
+    let mut w = BufWriter::new(File::create(out).unwrap());
+    let rd = BufReader::new(File::open(inp).unwrap());
+    let (mut behaviours, mut runs, mut calls, mut agree, mut disagree, mut kept, mut blocks) = (0usize, 0usize, 0usize, 0usize, 0usize, 0usize, 0usize);
+    let mut samples: Vec<Value> = Vec::new();
+    let mut bad_samples: Vec<Value> = Vec::new();
+    let mut ops_seen = std::collections::BTreeMap::<String, usize>::new();
+    for line in rd.lines() {
+        let line = line.unwrap();
+        if !line.starts_with("<<\"REPLAY\"") {
+            continue;
+        }
+        let (Some(s), Some(e)) = (line.find(", \""), line.rfind("\">>")) else { continue };
+        let inner: String = match serde_json::from_str(&line[s + 2..e + 1]) {
+            Ok(x) => x,
+            Err(_) => continue,
+        };
+        let hist: Vec<Step> = serde_json::from_str(&inner).expect("history JSON");
+        behaviours += 1;
+        for v in 0..variants {
+            let (tys, dyns) = variant(&mut rng, nt, nd, v == 0);
+            let mut d = Driver::new(tys.clone(), dyns.clone());
+            let mut evs = vec![json!({"ev":"reset","src":"replay","behaviour":behaviours,"variant":v,"tymap":tys,"dynmap":dyns.iter().map(|x| x.to_string()).collect::<Vec<_>>()})];
+            let mut ok = true;
+            runs += 1;
+            for st in &hist {
+                let ev = d.do_call(&st.call);
+                calls += 1;
+                *ops_seen.entry(st.call.op.clone()).or_default() += 1;
+                let same = ev["out"] == st.out
+                    && ev["obs"]["cells"] == st.cells
+                    && ev["obs"]["guards"] == st.guards
+                    && ev["obs"]["drops"] == st.drops;
+                evs.push(ev);
+                if !same {
+                    ok = false;
+                    if bad_samples.len() < 3 {
+                        bad_samples.push(json!({"call": evs.last().unwrap(), "expected": {"out": st.out, "cells": st.cells, "guards": st.guards, "drops": st.drops}}));
+                    }
+                    break;
+                }
+                if d.abort.is_some() {
+                    break;
+                }
+            }
+            if ok {
+                agree += 1;
+                if kept < keep && rng.gen_bool(0.02) {
+                    kept += 1;
+                    blocks += 1;
+                    write_block(&mut w, &evs);
+                }
+                if samples.len() < 2 && hist.len() >= 4 && rng.gen_bool(0.01) {
+                    samples.push(json!(hist.iter().map(|s| json!({"op": s.call.op, "targ": s.call.targ, "id": [s.call.ty, s.call.dy], "out": s.out["k"], "why": s.out["why"]})).collect::<Vec<_>>()));
+                }
+            } else {
+                disagree += 1;
+                if disagree <= max_bad {
+                    blocks += 1;
+                    write_block(&mut w, &evs);
+                }
+            }
+        }
+    }
+    w.flush().unwrap();
+    println!(
+        "{}",
+        json!({"behaviours":behaviours,"runs":runs,"calls":calls,"agree":agree,"disagree":disagree,"kept_agreeing":kept,
+               "blocks_written":blocks,"ops":ops_seen,"samples":samples,"disagree_samples":bad_samples})
+    );
+}
+
+// ------------------------------------------------------------------ random single-thread histories
+
+const FETCH_OPS: [&str; 6] = ["fetch", "try_fetch", "fetch_mut", "try_fetch_mut", "try_fetch_by_id", "try_fetch_mut_by_id"];
+const KINDS: [&str; 4] = ["read", "write", "optread", "optwrite"];
+
+fn rand_shape(rng: &mut StdRng, nt: u32) -> Vec<ShapeM> {
+    let n = if rng.gen_bool(0.25) { 1 } else { 2 };
+    (0..n).map(|_| ShapeM { k: KINDS.choose(rng).unwrap().to_string(), t: rng.gen_range(1..=nt) }).collect()
+}
+
+fn rand_call(rng: &mut StdRng, d: &Driver, mode: &mut u8) -> CallSpec {
+    let nt = d.ntypes();
+    let nd = d.ndyns();
+    let ty = rng.gen_range(1..=nt);
+    // by-id calls: mismatching type argument in a quarter of the cases
+    let targ = if rng.gen_bool(0.25) { rng.gen_range(1..=nt) } else { ty };
+    let dy = rng.gen_range(0..nd);
+    let p = rng.gen_range(1..100);
+    let mk = |op: &str, targ: u32, ty: u32, dy: u32, p: i64, gs: Vec<u32>, shape: Vec<ShapeM>| CallSpec { op: op.to_string(), targ, ty, dy, p, gs, shape };
+    let live: Vec<u32> = d.table.keys().cloned().collect();
+    // mode 0: building (mutating calls preferred while no guard lives), 1: borrowing
+    if live.is_empty() && (*mode == 0 || rng.gen_bool(0.15)) {
+        if rng.gen_bool(0.12) {
+            *mode = 1;
+        }
+        let sh = rand_shape(rng, nt);
+        return match rng.gen_range(0..100) {
+            0..=17 => mk("insert", ty, ty, 0, p, vec![], vec![]),
+            18..=37 => mk("insert_by_id", targ, ty, dy, p, vec![], vec![]),
+            38..=43 => mk("remove", ty, ty, 0, 0, vec![], vec![]),
+            44..=53 => mk("remove_by_id", targ, ty, dy, 0, vec![], vec![]),
+            54..=59 => mk("or_insert", ty, ty, 0, p, vec![], vec![]),
+            60..=65 => mk("or_insert_with", ty, ty, 0, p, vec![], vec![]),
+            66..=70 => mk("get_mut", ty, ty, 0, if rng.gen_bool(0.5) { p } else { 0 }, vec![], vec![]),
+            71..=77 => mk("get_mut_raw", ty, ty, dy, if rng.gen_bool(0.5) { p } else { 0 }, vec![], vec![]),
+            78..=81 => mk("has_value", ty, ty, 0, 0, vec![], vec![]),
+            82..=85 => mk("has_value_raw", ty, ty, dy, 0, vec![], vec![]),
+            86..=90 => mk("setup", 0, 0, 0, 0, vec![], sh),
+            91..=96 => mk("exec", 0, 0, 0, if rng.gen_bool(0.6) { p } else { 0 }, vec![], sh),
+            _ => mk("exec_panic", 0, 0, 0, p, vec![], sh),
+        };
+    }
+    if live.len() >= 7 || (!live.is_empty() && rng.gen_bool(if *mode == 1 { 0.3 } else { 0.7 })) {
+        if rng.gen_bool(0.1) {
+            *mode = 0;
+        }
+        let g = *live.choose(rng).unwrap();
+        let e = &d.table[&g];
+        return match rng.gen_range(0..100) {
+            0..=44 => mk("drop", e.ty, e.ty, e.dy, 0, vec![g], vec![]),
+            45..=59 if e.kind == 'r' && e.g.dup().is_some() => mk("clone", e.ty, e.ty, e.dy, 0, vec![g], vec![]),
+            60..=74 if e.kind == 'w' => mk("write", e.ty, e.ty, e.dy, p, vec![g], vec![]),
+            75..=89 => {
+                let mut sel: Vec<u32> = live.iter().cloned().filter(|_| rng.gen_bool(0.5)).collect();
+                if sel.is_empty() {
+                    sel.push(g);
+                }
+                mk("unwind", 0, 0, 0, 0, sel, vec![])
+            }
+            _ => mk("drop", e.ty, e.ty, e.dy, 0, vec![g], vec![]),
+        };
+    }
+    match rng.gen_range(0..100) {
+        0..=69 => {
+            let op = *FETCH_OPS.choose(rng).unwrap();
+            if op.ends_with("by_id") {
+                mk(op, targ, ty, dy, 0, vec![], vec![])
+            } else {
+                mk(op, ty, ty, 0, 0, vec![], vec![])
+            }
+        }
+        70..=74 => mk("has_value", ty, ty, 0, 0, vec![], vec![]),
+        75..=79 => mk("has_value_raw", ty, ty, dy, 0, vec![], vec![]),
+        80..=91 => mk("system_data", 0, 0, 0, 0, vec![], rand_shape(rng, nt)),
+        92..=95 => mk("meta_iter", 0, 0, 0, 0, vec![], (1..=nt).map(|t| ShapeM { k: "optread".into(), t }).collect()),
+        _ => mk("meta_iter_mut", 0, 0, 0, 0, vec![], (1..=nt).map(|t| ShapeM { k: "optwrite".into(), t }).collect()),
+    }
+}
+
+fn random(a: &Args) {
+    let out = a.get("out").expect("--out");
+    let seed: u64 = a.num("seed", 1);
+    let blocks: usize = a.num("blocks", 20);
+    let len: usize = a.num("len", 300);
+    let nt: usize = a.num("ntypes", 4);
+    let nd: usize = a.num("ndyns", 3);
+    let mut rng = StdRng::seed_from_u64(seed);
+    let mut w = BufWriter::new(File::create(out).unwrap());
+    let mut ops = std::collections::BTreeMap::<String, usize>::new();
+    let mut outcomes = std::collections::BTreeMap::<String, usize>::new();
+    let (mut calls, mut aborted) = (0usize, 0usize);
+    let mut samples = Vec::new();
+    for b in 0..blocks {
+        let (tys, dyns) = variant(&mut rng, nt, nd, b == 0);
+        let mut d = Driver::new(tys.clone(), dyns.clone());
+        let mut evs = vec![json!({"ev":"reset","src":"random","block":b,"tymap":tys,"dynmap":dyns.iter().map(|x| x.to_string()).collect::<Vec<_>>()})];
+        let mut mode = 0u8;
+        for _ in 0..len {
+            let c = rand_call(&mut rng, &d, &mut mode);
+            let mut c = c;
+            if c.op.starts_with("meta_iter") {
+                // the table's registration order is the abstract type order
+                c.shape = (1..=nt as u32).map(|t| ShapeM { k: if c.op == "meta_iter" { "optread".into() } else { "optwrite".into() }, t }).collect();
+            }
+            let ev = d.do_call(&c);
+            calls += 1;
+            *ops.entry(c.op.clone()).or_default() += 1;
+            *outcomes.entry(format!("{}{}{}", ev["out"]["k"].as_str().unwrap(), if ev["out"]["why"] == "" { "" } else { ":" }, ev["out"]["why"].as_str().unwrap())).or_default() += 1;
+            if samples.len() < 6 && b == 0 {
+                samples.push(json!({"op": c.op, "targ": c.targ, "id": [ev["ty"], ev["dy"]], "out": ev["out"]["k"], "why": ev["out"]["why"]}));
+            }
+            evs.push(ev);
+            if let Some(why) = &d.abort {
+                evs.push(json!({"ev":"abort","why":why}));
+                aborted += 1;
+                break;
+            }
+        }
+        write_block(&mut w, &evs);
+    }
+    w.flush().unwrap();
+    println!("{}", json!({"blocks":blocks,"calls":calls,"aborted_blocks":aborted,"ops":ops,"outcomes":outcomes,"samples":samples}));
+}
+
+// ------------------------------------------------------------------ multi-thread histories
+
+struct Log(Mutex<Vec<Value>>);
+impl Log {
+    fn push(&self, v: Value) {
+        self.0.lock().unwrap().push(v);
+    }
+}
+
+fn threads(a: &Args) {
+    let out = a.get("out").expect("--out");
+    let seed: u64 = a.num("seed", 1);
+    let blocks: usize = a.num("blocks", 6);
+    let rounds: usize = a.num("rounds", 6);
+    let nops: usize = a.num("ops", 12);
+    let nt: usize = a.num("ntypes", 2);
+    let nd: usize = a.num("ndyns", 2);
+    let maxthreads: usize = a.num("maxthreads", 8);
+    let mut rng = StdRng::seed_from_u64(seed);
+    let mut w = BufWriter::new(File::create(out).unwrap());
+    let (mut tcalls, mut syncs, mut aborted) = (0usize, 0usize, 0usize);
+    let mut outcomes = std::collections::BTreeMap::<String, usize>::new();
+    let mut thread_counts = Vec::new();
+    let mut samples = Vec::new();
+    for b in 0..blocks {
+        let (tys, dyns) = variant(&mut rng, nt, nd, b == 0);
+        let mut d = Driver::new(tys.clone(), dyns.clone());
+        let mut evs = vec![json!({"ev":"reset","src":"threads","block":b,"tymap":tys,"dynmap":dyns.iter().map(|x| x.to_string()).collect::<Vec<_>>()})];
+        // populate (single-threaded, fully observed); one id stays absent so that None occurs
+        for ty in 1..=nt as u32 {
+            for dy in 0..nd as u32 {
+                if ty == nt as u32 && dy == nd as u32 - 1 && nd > 1 {
+                    continue;
+                }
+                evs.push(d.do_call(&CallSpec { op: "insert_by_id".into(), targ: ty, ty, dy, p: rng.gen_range(1..100), ..Default::default() }));
+            }
+        }
+        let k = rng.gen_range(2..=maxthreads.max(2));
+        thread_counts.push(k);
+        let gid = AtomicU32::new(1000);
+        'rounds: for _ in 0..rounds {
+            // hand the live guards to the threads
+            let mut held: Vec<Vec<(u32, SendEntry)>> = (0..k).map(|_| Vec::new()).collect();
+            let live: Vec<u32> = d.table.keys().cloned().collect();
+            for g in live {
+                let e = d.table.remove(&g).unwrap();
+                held[rng.gen_range(0..k)].push((g, SendEntry(e)));
+            }
+            let log = Log(Mutex::new(vec![json!({"ev":"par","threads":k})]));
+            let world = d.w();
+            let seeds: Vec<u64> = (0..k).map(|_| rng.gen()).collect();
+            let dref = &d;
+            let back: Vec<Vec<(u32, SendEntry)>> = std::thread::scope(|s| {
+                let hs: Vec<_> = held
+                    .into_iter()
+                    .enumerate()
+                    .map(|(t, mine)| {
+                        let (log, gid, seed) = (&log, &gid, seeds[t]);
+                        let rids: Vec<Vec<shred::ResourceId>> = (1..=nt as u32).map(|ty| (0..nd as u32).map(|dy| dref.rid(ty, dy)).collect()).collect();
+                        let cis: Vec<usize> = (1..=nt as u32).map(|ty| dref.ci(ty)).collect();
+                        s.spawn(move || thread_body(t as u32 + 1, world, mine, log, gid, seed, nops, rids, cis))
+                    })
+                    .collect();
+                hs.into_iter().map(|h| h.join().expect("harness thread")).collect()
+            });
+            for v in back {
+                for (g, e) in v {
+                    d.table.insert(g, e.0);
+                }
+            }
+            let mut l = log.0.into_inner().unwrap();
+            for e in &l {
+                if e["ev"] == "tret" {
+                    tcalls += 1;
+                    *outcomes.entry(format!("{}{}{}", e["k"].as_str().unwrap(), if e["why"] == "" { "" } else { ":" }, e["why"].as_str().unwrap())).or_default() += 1;
+                }
+            }
+            if samples.len() < 1 {
+                samples.push(json!(l.iter().take(12).cloned().collect::<Vec<_>>()));
+            }
+            evs.append(&mut l);
+            // quiescent: only this thread runs now
+            evs.push(json!({"ev":"sync","obs": d.observe()}));
+            syncs += 1;
+            if let Some(why) = &d.abort {
+                evs.push(json!({"ev":"abort","why":why}));
+                aborted += 1;
+                break 'rounds;
+            }
+            // between rounds the main thread sometimes releases guards itself
+            let live: Vec<u32> = d.table.keys().cloned().collect();
+            for g in live {
+                if rng.gen_bool(0.3) {
+                    let e = &d.table[&g];
+                    let c = CallSpec { op: "drop".into(), targ: e.ty, ty: e.ty, dy: e.dy, gs: vec![g], ..Default::default() };
+                    evs.push(d.do_call(&c));
+                }
+            }
+        }
+        write_block(&mut w, &evs);
+    }
+    w.flush().unwrap();
+    println!(
+        "{}",
+        json!({"blocks":blocks,"thread_calls":tcalls,"syncs":syncs,"aborted_blocks":aborted,"threads_per_block":thread_counts,
+               "outcomes":outcomes,"samples":samples})
+    );
+}
+
+#[allow(clippy::too_many_arguments)]
+fn thread_body(
+    t: u32,
+    world: &'static shred::World,
+    mut mine: Vec<(u32, SendEntry)>,
+    log: &Log,
+    gid: &AtomicU32,
+    seed: u64,
+    nops: usize,
+    rids: Vec<Vec<shred::ResourceId>>,
+    cis: Vec<usize>,
+) -> Vec<(u32, SendEntry)> {
+    use shredh::worldx::thread_fetch;
+    let mut rng = StdRng::seed_from_u64(seed);
+    let nt = rids.len() as u32;
+    let nd = rids[0].len() as u32;
+    for _ in 0..nops {
+        let r = rng.gen_range(0..100);
+        if !mine.is_empty() && (r < 35 || mine.len() >= 3) {
+            // release one of this thread's guards
+            let (g, e) = mine.swap_remove(rng.gen_range(0..mine.len()));
+            log.push(json!({"ev":"tcall","t":t,"op":"drop","targ":e.0.ty,"ty":e.0.ty,"dy":e.0.dy,"g":g}));
+            let r = std::panic::catch_unwind(std::panic::AssertUnwindSafe(move || drop(e)));
+            let (k, why) = match r {
+                Ok(()) => ("unit", ""),
+                Err(e) => ("panic", panic_why(&*e)),
+            };
+            log.push(json!({"ev":"tret","t":t,"k":k,"why":why,"g":0}));
+        } else if !mine.is_empty() && r < 45 {
+            // look at the canary through a held guard
+            let (g, e) = &mine[rng.gen_range(0..mine.len())];
+            let seen = e.0.g.canary();
+            log.push(json!({"ev":"canary","t":t,"g":g,"seen":seen}));
+        } else if !mine.is_empty() && r < 52 && mine.iter().any(|(_, e)| e.0.kind == 'r') {
+            let (g, e) = mine.iter().find(|(_, e)| e.0.kind == 'r').unwrap();
+            let (g, ty, dy) = (*g, e.0.ty, e.0.dy);
+            log.push(json!({"ev":"tcall","t":t,"op":"clone","targ":ty,"ty":ty,"dy":dy,"g":g}));
+            let r = std::panic::catch_unwind(std::panic::AssertUnwindSafe(|| e.0.g.dup()));
+            match r {
+                Ok(Some(ng)) => {
+                    let n = gid.fetch_add(1, Ordering::SeqCst);
+                    let seen = ng.canary();
+                    log.push(json!({"ev":"tret","t":t,"k":"guard","why":"","g":n}));
+                    log.push(json!({"ev":"canary","t":t,"g":n,"seen":seen}));
+                    mine.push((n, SendEntry(GEntry { g: ng, ty, dy, kind: 'r' })));
+                }
+                Ok(None) => log.push(json!({"ev":"tret","t":t,"k":"none","why":"","g":0})),
+                Err(e) => log.push(json!({"ev":"tret","t":t,"k":"panic","why":panic_why(&*e),"g":0})),
+            }
+        } else {
+            let op = *FETCH_OPS.choose(&mut rng).unwrap();
+            let ty = rng.gen_range(1..=nt);
+            let dy = if op.ends_with("by_id") { rng.gen_range(0..nd) } else { 0 };
+            let kind = if op.contains("mut") { 'w' } else { 'r' };
+            log.push(json!({"ev":"tcall","t":t,"op":op,"targ":ty,"ty":ty,"dy":dy,"g":0}));
+            let id = rids[ty as usize - 1][dy as usize].clone();
+            let r = std::panic::catch_unwind(std::panic::AssertUnwindSafe(|| thread_fetch(world, op, cis[ty as usize - 1], id)));
+            match r {
+                Ok(Some(mut g)) => {
+                    // canary protocol: an exclusive holder makes the counter odd while it "writes"
+                    let seen = g.canary();
+                    if kind == 'w' {
+                        g.set_canary(seen.wrapping_add(1));
+                        for _ in 0..rng.gen_range(0..3) {
+                            std::thread::yield_now();
+                        }
+                        g.set_canary(seen.wrapping_add(2));
+                    }
+                    let n = gid.fetch_add(1, Ordering::SeqCst);
+                    log.push(json!({"ev":"tret","t":t,"k":"guard","why":"","g":n}));
+                    log.push(json!({"ev":"canary","t":t,"g":n,"seen":seen}));
+                    mine.push((n, SendEntry(GEntry { g, ty, dy, kind })));
+                }
+                Ok(None) => log.push(json!({"ev":"tret","t":t,"k":"none","why":"","g":0})),
+                Err(e) => log.push(json!({"ev":"tret","t":t,"k":"panic","why":panic_why(&*e),"g":0})),
+            }
+        }
+        if rng.gen_bool(0.3) {
+            std::thread::yield_now();
+        }
+    }
+    mine
 }
